@@ -18,7 +18,7 @@ def showItem : Item → String
 
 def runCopy {σ} (init : σ) (feed : σ → Bytes → Res σ) (acc : σ → Bytes) (ops : List String) : List String :=
   let rec go (c : Consumer σ) : List String → List String → List String
-    | [], out => (s!"held {toHex (c.held acc)}" :: out).reverse
+    | [], out => (s!"held {toHex (c.held acc)}" :: s!"buf {toHex c.buffer}" :: out).reverse
     | op :: rest, out =>
       match words op with
       | ["feed", h] =>
